@@ -58,11 +58,12 @@ def stops_of(layout, full, is_bytes, enc, w=None):
             endpos = 0
         row.append([endpos, endcol, 0])
         rows.append(row)
-    # a row filled to the last column has no cell left for an end-of-row stop: that offset is the first stop of the next row
+    # a soft-wrapped row (filled to the last column, or followed by a wide character that did not fit into the cells left) has no
+    # end-of-row stop of its own: that offset is the first stop of the next row, and the layout has no end marker for it
     if w is not None:
         for r in range(len(rows) - 1):
             end = rows[r][-1]
-            if end[1] >= w and len(rows[r]) > 1 and rows[r + 1][0][0] == end[0]:
+            if len(rows[r]) > 1 and rows[r + 1][0][0] == end[0]:
                 rows[r].pop()
     return rows
 
@@ -254,6 +255,17 @@ def run(chk):
             cfg = {"caption": cap, "text": txt, "w": w, "wrap": wrap, "align": "left", "multiline": True, "allow_tab": False}
             for seq in itertools.product(base_keys, repeat=depth):
                 traces.append(run_edit(cfg, list(seq)))
+    # narrow widths with double-width characters: rows that end early because the next character does not fit, a cursor behind a
+    # character that fills the row (found by the thorough tier's larger sample; exhaustive pairs here)
+    wide_keys = [*base_keys, keyrec("char", 0x5B57), keyrec("click", 0, 1, 2), keyrec("click", 0, 0, 3)]
+    for wrap in ("space", "any"):
+        for (cap, txt, w) in (("\u5b57 ", "a", 2), ("", "\u5b57a\U0001f600a", 2), ("c\n", "\u5b57a", 3), ("\u5b57 ", " a", 2)):
+            cfg = {"caption": cap, "text": txt, "w": w, "wrap": wrap, "align": "left", "multiline": True, "allow_tab": False}
+            for seq in itertools.product(wide_keys, repeat=2):
+                traces.append(run_edit(cfg, list(seq)))
+            if not quick:
+                for seq in itertools.product(wide_keys, repeat=3):
+                    traces.append(run_edit(cfg, list(seq)))
     # ---- seeded random sequences over the option space ----
     n_rand = 2500 if quick else 120000
     alph_simple = "ab c"
